@@ -283,7 +283,7 @@ func replayMain(args []string) int {
 	for _, v := range o.Violations {
 		if c.Expect == "" || v.Class == c.Expect {
 			if c.TraceHash != "" && c.TraceHash != o.TraceHash {
-				fmt.Fprintf(stdout, "replay diverged: trace hash %s, recorded %s (violation %s still present)\n", o.TraceHash, c.TraceHash, v.Class)
+				fmt.Fprintf(stdout, "replay diverged: trace hash %s, recorded %s (violation still present: class=%s sig=%s)\n", o.TraceHash, c.TraceHash, v.Class, v.Sig)
 				return 3
 			}
 			fmt.Fprintf(stdout, "REPRODUCED property=%s class=%s sig=%s\n  %s\n", c.Property, v.Class, v.Sig, v.Detail)
@@ -507,6 +507,8 @@ func parentRun(args []string) int {
 
 	// 1. known findings: re-execute stored replays
 	suppress := map[string]bool{}
+	knownBySig := map[string]knownFinding{}
+	knownPrinted := map[string]bool{}
 	var knownLines []string
 	knownRepro := 0
 	for _, k := range loadKnown() {
@@ -520,18 +522,20 @@ func parentRun(args []string) int {
 			return 2
 		}
 		_ = c
+		// a listed signature is never reported as a new violation; the KNOWN-FINDING
+		// line is printed when the finding is actually observed (stored replay, or
+		// later during exploration)
+		suppress[k.Signature] = true
+		knownBySig[k.Signature] = k
 		out, code := runChild(5*time.Minute, "replay", rp)
-		if code == 1 && strings.Contains(out, "sig="+k.Signature) {
+		if (code == 1 || code == 3) && (strings.Contains(out, "sig="+k.Signature+"\n") || strings.Contains(out, "sig="+k.Signature+")")) {
 			line := fmt.Sprintf("KNOWN-FINDING: property=%s %s [%s]", id, k.WhatFails, k.ID)
 			fmt.Println(line)
 			knownLines = append(knownLines, line)
-			suppress[k.Signature] = true
+			knownPrinted[k.Signature] = true
 			knownRepro++
-		} else if code == 1 || code == 3 {
-			// still violates but with another signature / diverged: do not suppress
-			fmt.Fprintf(os.Stderr, "note: known finding %s no longer reproduces with its signature (exit %d)\n", k.ID, code)
-		} else if code >= 2 {
-			fmt.Fprintf(os.Stderr, "known finding %s: replay inconclusive (exit %d): %s\n", k.ID, code, out)
+		} else if code >= 2 && code != 3 {
+			fmt.Fprintf(os.Stderr, "known finding %s: stored replay inconclusive (exit %d): %s\n", k.ID, code, tail(out, 500))
 		}
 	}
 	var suppList []string
@@ -580,6 +584,14 @@ func parentRun(args []string) int {
 		for _, v := range o.Violations {
 			if suppress[v.Sig] {
 				knownHits++
+				if !knownPrinted[v.Sig] {
+					knownPrinted[v.Sig] = true
+					k := knownBySig[v.Sig]
+					line := fmt.Sprintf("KNOWN-FINDING: property=%s %s [%s]", id, k.WhatFails, k.ID)
+					fmt.Println(line)
+					knownLines = append(knownLines, line)
+					knownRepro++
+				}
 				continue
 			}
 			if firstViol == nil {
